@@ -4,6 +4,8 @@
 // chunk of the same direction and time whose content is
 // "<name>:" + upper(content). It appends one line per conversion to the file
 // named by VERIF_CONV_LOG: "<name> <streamID> <sha256 of the input chunks>".
+// A stream with "x5" somewhere in its payload is answered with one line that is
+// no chunk (a converter with a stray debug print): the service gives up on it.
 package main
 
 import (
@@ -43,6 +45,8 @@ func main() {
 			os.Exit(1)
 		}
 		h := sha256.New()
+		bad := false
+		var lines [][]byte
 		for {
 			line, err := in.ReadBytes('\n')
 			if err != nil {
@@ -62,6 +66,15 @@ func main() {
 			h.Write(raw)
 			o := chunk{Direction: c.Direction, Time: c.Time, Content: base64.StdEncoding.EncodeToString([]byte(name + ":" + strings.ToUpper(string(raw))))}
 			b, _ := json.Marshal(o)
+			lines = append(lines, b)
+			// a stream whose payload holds "x5" makes the converter misbehave: it answers with a line that is no chunk
+			bad = bad || bytes.Contains(raw, []byte("x5"))
+		}
+		if bad && os.Getenv("VERIF_CONV_NOFAIL") == "" {
+			// a stray debug print in front of an otherwise complete answer
+			out.WriteString("this is no chunk\n")
+		}
+		for _, b := range lines {
 			out.Write(b)
 			out.WriteByte('\n')
 		}
